@@ -11,6 +11,8 @@ C04 driver: replays a harness trace.
 import LndModel.Prelude.Lines
 import LndModel.C04.Model
 import LndModel.C04.Parse
+import LndModel.C04.Watch
+import LndModel.C04.RevLog
 
 open LndModel LndModel.Lines LndModel.C04 LndModel.C04.Script LndModel.C04.Parse
 
@@ -44,6 +46,9 @@ structure St where
   templates : Nat := 0
   brarInputs : Nat := 0
   watched : Nat := 0
+  watchModel : Nat := 0
+  watchNeg : Nat := 0
+  revlogs : Nat := 0
   samples : Nat := 0
 
 def mismatch (s : St) (detail : String) : IO St := do
@@ -280,8 +285,62 @@ def step (s : St) (line : String) : IO St := do
     let s := { s with evals := s.evals + 1, watched := s.watched + 1 }
     -- (S) the real chain watcher, working on its own earlier copy of the channel, must
     -- recognise the revoked state and hand a retribution to the breach arbitrator
-    if resOf ws == "ok" then return s
-    else monitor s "breach-recognised" s!"ctx={kvS rest "ctx"} stale_copy={kvS rest "stale"} copy_height={kvS rest "copyh"} final_height={kvS rest "finalh"} chain watcher: {resOf ws}"
+    let mut s := s
+    if resOf ws != "ok" then
+      s ← monitor s "breach-recognised" s!"ctx={kvS rest "ctx"} stale_copy={kvS rest "stale"} copy_height={kvS rest "copyh"} final_height={kvS rest "finalh"} chain watcher: {resOf ws}"
+    -- (X) the recognition path as model steps (Watch.recogniseFacts): decoded state number,
+    -- log lookup (every height below the remote tail is logged), hash comparison
+    if (kv? rest "obf").isSome then
+      let finalh := kvN rest "finalh"
+      let mv := Watch.recogniseFacts (Hint.xorInt (hexBytesNat (kvS rest "obf"))) (kvN rest "seq") (kvN rest "lock")
+        false false false (fun k => decide (k < finalh)) true
+      let iv : Option Nat := if resOf ws == "ok" || resOf ws == "wrongstate" then (kvS rest "state").toNat? else none
+      if mv != iv then
+        s ← mismatch s s!"watch ctx={kvS rest "ctx"} model={repr mv} impl={repr iv} ({resOf ws})"
+      s := { s with watchModel := s.watchModel + 1 }
+    return s
+  | "revlog" :: rest =>
+    let s := { s with evals := s.evals + 1 }
+    if resOf ws != "ok" then
+      -- every revoked height must have a log entry the victim can read back
+      monitor s "retribution-built" s!"v={kvS rest "v"} h={kvS rest "h"} revocation log entry: {resOf ws}"
+    else
+      -- (X) the model's index bookkeeping (RevLog.scanIdx = findOutputIndexesFromRemote,
+      -- C01.assignFrom = populateHtlcIndexes) recomputed on the REAL transaction
+      let nums (t : String) : List Nat := (t.splitOn ":").map (fun x => x.toNat?.getD 0)
+      let tx : List LndModel.C01.TxO := ((kvS rest "outs").splitOn ",").filterMap fun t =>
+        match nums t with
+        | [v, sc, cl] => some ⟨v, sc, cl⟩
+        | _ => none
+      let ents : List (List Nat) := (((kvS rest "htlcs").splitOn ",").filter (· != "")).map nums
+      let hts : List LndModel.C01.HT := ents.filterMap fun e =>
+        match e with
+        | [_, amt, hid, cl, _, sc] => some ⟨hid, ⟨amt, sc, cl⟩⟩
+        | _ => none
+      let recIdx : List Nat := ents.filterMap (·.head?)
+      let sortN (l : List Nat) : List Nat := l.mergeSort (fun a b => decide (a ≤ b))
+      let mut s := { s with revlogs := s.revlogs + 1 }
+      match LndModel.C01.assignFrom tx (fun _ => []) hts with
+      | none => s ← mismatch s s!"revlog v={kvS rest "v"} h={kvS rest "h"}: model cannot place an HTLC entry on the transaction"
+      | some idxs =>
+        if sortN idxs != sortN recIdx then
+          s ← mismatch s s!"revlog v={kvS rest "v"} h={kvS rest "h"}: htlc indexes model={idxs} impl={recIdx}"
+      let r := RevLog.scanIdx (kvN rest "ourS") (kvN rest "theirS") 0 tx (RevLog.outputIndexEmpty, RevLog.outputIndexEmpty)
+      if r.1 != kvN rest "ours" || r.2 != kvN rest "theirs" then
+        s ← mismatch s s!"revlog v={kvS rest "v"} h={kvS rest "h"}: our/their index model={r.1}/{r.2} impl={kvS rest "ours"}/{kvS rest "theirs"}"
+      return s
+  | "watchneg" :: rest =>
+    let s := { s with evals := s.evals + 1, watchNeg := s.watchNeg + 1 }
+    let finalh := kvN rest "finalh"
+    -- tamper: same hint, the recorded CommitTxHash differs; current: nothing logged for that number
+    let mv := Watch.recogniseFacts (Hint.xorInt (hexBytesNat (kvS rest "obf"))) (kvN rest "seq") (kvN rest "lock")
+      false false false (fun k => decide (k < finalh)) (kvS rest "case" != "tamper")
+    let iv : Option Nat := if resOf ws == "breach" then (kvS rest "state").toNat? else none
+    if resOf ws != "breach" && resOf ws != "nobreach" then
+      mismatch s s!"watchneg ctx={kvS rest "ctx"} case={kvS rest "case"}: {resOf ws}"
+    else if mv != iv then
+      mismatch s s!"watchneg ctx={kvS rest "ctx"} case={kvS rest "case"} model={repr mv} impl={repr iv}"
+    else return s
   | "jmissing" :: _ => mismatch s s!"harness lost the revoked transaction: {line}"
   | "jsecond" :: _ => return s
   | "jin" :: rest =>
@@ -338,6 +397,8 @@ def main : IO Unit := do
   IO.println s!"STAT nontrivial={s.spendsPos + s.spendsNeg + s.hints + s.revoked + s.brarInputs}"
   IO.println s!"STAT breach_arbitrator_inputs_executed={s.brarInputs}"
   IO.println s!"STAT chain_watcher_stale_copy_spends={s.watched}"
+  IO.println s!"STAT chain_watcher_model_decisions_compared={s.watchModel + s.watchNeg}"
+  IO.println s!"STAT revlog_entries_recomputed_by_model={s.revlogs}"
   IO.println s!"STAT revoked_heights={s.revoked}"
   IO.println s!"STAT retributions={s.retrs}"
   IO.println s!"STAT outputs_checked={s.outs}"
